@@ -231,7 +231,15 @@ def to_obj_array(x):
 def apply_ufunc(ufunc, method, inputs, kw):
     f = UF.get(ufunc)
     if f is None:
-        raise RealisationError(f"ufunc {ufunc.__name__} not modelled")
+        # numpy's own object loops (matmul, dot-like ufuncs, ...) call the Python operators of the elements, which is exactly the
+        # symbolic semantics of + and *; anything without an object loop is a C boundary
+        if kw.get("out") is not None:
+            raise RealisationError(f"ufunc {ufunc.__name__} with out=")
+        try:
+            res = getattr(ufunc, method)(*[_boxed(x) if not isinstance(x, np.ndarray) else _boxed(x) for x in inputs], **{k: v for k, v in kw.items() if k in ("axis", "axes", "keepdims")})
+        except TypeError as e:
+            raise RealisationError(f"ufunc {ufunc.__name__} not modelled ({e})")
+        return wrap(res) if isinstance(res, np.ndarray) else res
     out = kw.pop("out", None)
     kw.pop("dtype", None)
     kw.pop("casting", None)
